@@ -23,6 +23,13 @@ use crate::shredder::{MAX_DATA_PER_SLICE, RegularShredder, Shredder, ShredderPoo
 use crate::types::{Slice, SliceHeader, SliceIndex, SlicePayload, Slot};
 use crate::{BlockId, Disseminator, MAX_TRANSACTION_SIZE};
 
+/// Bytes by which a slice payload grows when its parent field turns from `None` into `Some`.
+///
+/// A slice that is produced without a parent while the `ParentReady` event is still outstanding
+/// keeps this much room free, because `apply_parent_ready` may still put the ready parent into it.
+/// Encoding: 8 bytes slot + 32 bytes block hash (the `Option` tag is there in both cases).
+const PARENT_SWITCH_RESERVE: usize = 40;
+
 /// Produces blocks from transactions and dissminates them.
 ///
 /// This is the leader's side of the consensus protocol.
@@ -211,8 +218,18 @@ where
                 // makes sure optimistic block production yields before timeout would expire
                 duration_left.min(self.delta_block)
             };
-            let produce_slice_future =
-                produce_slice_payload(&self.txs_receiver, parent, time_for_slice);
+            // the parent switch may still land in this slice: keep room for it
+            let reserved = if parent.is_none() && !parent_ready_receiver.is_terminated() {
+                PARENT_SWITCH_RESERVE
+            } else {
+                0
+            };
+            let produce_slice_future = produce_slice_payload_reserving(
+                &self.txs_receiver,
+                parent,
+                time_for_slice,
+                reserved,
+            );
 
             // If we have not yet received the ParentReady event, wait for it concurrently while producing the next slice.
             let (mut payload, new_duration_left) = if parent_ready_receiver.is_terminated() {
@@ -440,18 +457,34 @@ async fn produce_slice_payload<T>(
 where
     T: TransactionNetwork,
 {
+    produce_slice_payload_reserving(txs_receiver, parent, duration_left, 0).await
+}
+
+/// Like [`produce_slice_payload`], but keeps `reserved` bytes of the slice free for the caller.
+///
+/// See [`PARENT_SWITCH_RESERVE`].
+async fn produce_slice_payload_reserving<T>(
+    txs_receiver: &T,
+    parent: Option<BlockId>,
+    duration_left: Duration,
+    reserved: usize,
+) -> (SlicePayload, Duration)
+where
+    T: TransactionNetwork,
+{
     let start_time = Instant::now();
 
     // each slice should be able hold at least 1 transaction
     // +8 to encode number of txs, +8 to encode tx payload length
-    const _: () = assert!(MAX_DATA_PER_SLICE >= MAX_TRANSACTION_SIZE + 8 + 8);
+    const _: () =
+        assert!(MAX_DATA_PER_SLICE >= PARENT_SWITCH_RESERVE + MAX_TRANSACTION_SIZE + 8 + 8);
 
     // reserve space for: parent info, and
     // 8 bytes for SlicePayload::data length
     let parent_encoded_len = wincode::serialized_size(&parent)
         .expect("computing serialized size of parent should not fail")
         as usize;
-    let buffer_space = MAX_DATA_PER_SLICE - parent_encoded_len - 8;
+    let buffer_space = MAX_DATA_PER_SLICE - parent_encoded_len - 8 - reserved;
     let mut buffer = Vec::<u8>::with_capacity(buffer_space);
     let mut tx_count = 0u64;
     // reserve space for the length prefix
